@@ -38,7 +38,8 @@ def gen_session_prog(rng, sid):
     for _ in range(rng.randint(4, 9)):
         r = rng.random()
         if r < 0.35:
-            prog.append(['add', rng.choice([0, 1]), rng.choice(keys), {'a': rng.choice([0, 1, 2, None])}])
+            # class 3 (Note) is not versioned: a flush of nothing but notes creates a unit of work without operations
+            prog.append(['add', rng.choice([0, 1, 3, 3]), rng.choice(keys), {'a': rng.choice([0, 1, 2, None])}])
         elif r < 0.55:
             prog.append(['set', rng.choice([0, 1]), rng.choice(keys), {'a': rng.choice([0, 1, 2, None])}])
         elif r < 0.62:
@@ -78,7 +79,9 @@ def gen_cases(rng, n, tier):
 
 def corpus():
     cfg = dict(shape='blog', strategy='validity', twin=False)
-    return [dict(cfg=cfg, progs=[[['add', 0, 1, {'a': 1}], ['flush'], ['set', 0, 1, {'a': 2}], ['flush'], ['commit']],
+    return [dict(cfg=cfg, progs=[[['add', 3, 1, {'a': 1}], ['flush'], ['close'], ['add', 0, 1, {'a': 1}], ['commit'], ['set', 0, 1, {'a': 2}], ['commit']],
+                                 [['add', 0, 1, {'a': 7}], ['flush'], ['commit']]], order=[0, 0, 1, 0, 1, 0, 0, 1, 0, 0]),
+            dict(cfg=cfg, progs=[[['add', 0, 1, {'a': 1}], ['flush'], ['set', 0, 1, {'a': 2}], ['flush'], ['commit']],
                                  [['execopt'], ['add', 0, 1, {'a': 7}], ['flush'], ['commit']]], order=[0, 0, 1, 1, 1, 1, 0, 0, 0]),
             dict(cfg=cfg, progs=[[['add', 0, 1, {'a': 1}], ['flush'], ['add', 0, 2, {'a': 1}], ['commit']],
                                  [['add', 0, 1, {'a': 7}], ['flush'], ['commit']]], order=[0, 1, 0, 1, 0, 1, 0])]
